@@ -37,6 +37,8 @@ def gen_case(rng, tier, k):
         bnet = common.g_tt(rng, rng.randint(2, min(5, nmax)))
     else:
         bnet = common.g_mixed(rng, nmax=nmax, p_core=0.0)
+    if rng.random() < 0.15:
+        bnet = common.g_modulated(rng)
     return {"bnet": bnet, "strategy": rng.choice(STRATS)}
 
 
